@@ -82,12 +82,12 @@ type nilEngine struct {
 }
 
 type nilFn struct {
-	e      *nilEngine
-	fi     *core.FuncInfo
-	info   *types.Info
-	params map[types.Object]int
-	exits  []nstate
-	typeSw map[types.Object]bool // type-switch vars that may be typed nil
+	e       *nilEngine
+	fi      *core.FuncInfo
+	info    *types.Info
+	params  map[types.Object]int
+	exits   []nstate
+	typeSw  map[types.Object]bool // type-switch vars that may be typed nil
 	collect bool
 	reqSink map[string]nilReq
 	// closures: requirements on the parameters of function literals bound to locals, checked at their call sites
@@ -506,7 +506,7 @@ func (f *nilFn) unguarded(e ast.Expr, k, kind, what string, pos token.Pos, store
 
 // nilExempt: frozen, one construct each, with the reason (DESIGN §3.2).
 var nilExempt = map[string]string{
-	"internal/flatten/replace.UpdateRefWithSchema/refable.Schema": "the key comes from the analyzer's index, which registers `<holder>/items` and `<holder>/additionalProperties` only when .Schema is non-nil (analyzeSchema); sibling UpdateRef guards it; no failing input exists for analyzer-produced keys",
+	"internal/flatten/replace.UpdateRefWithSchema/refable.Schema":             "the key comes from the analyzer's index, which registers `<holder>/items` and `<holder>/additionalProperties` only when .Schema is non-nil (analyzeSchema); sibling UpdateRef guards it; no failing input exists for analyzer-produced keys",
 	"internal/flatten/replace.rewriteParentRef/container.StatusCodeResponses": "the key `…/responses/<code>/schema` is produced by the analyzer from an existing entry of this very map, so the map is non-nil",
 }
 
